@@ -437,6 +437,10 @@ def classify_export_error(cirq, circuit, exc):
         return 'refused'
     if isinstance(exc, ValueError) and any(m in msg for m in REFUSALS):
         return 'refused'
+    if isinstance(exc, KeyError):
+        top = {str(op.gate.key) for op in circuit.all_operations() if isinstance(op.gate, cirq.MeasurementGate)}
+        if str(exc).strip("'\"") not in top and any(cirq.is_measurement(op) for op in circuit.all_operations()):
+            return 'export-raises:KeyError:measurement-not-at-top-level'
     if isinstance(exc, TypeError):
         for op in circuit.all_operations():
             u = op.untagged
@@ -606,6 +610,13 @@ class Batch:
         desc = (f'{cfg["api"]}(version={cfg["version"]}, precision={cfg["precision"]}, qubit_order={cj["order"]}) of '
                 + ' '.join(repr(circuit).split()))[:700]
         text, exc = export(cirq, circuit, cfg['order'], cfg['api'], cfg['version'], cfg['precision'])
+        if exc is None and any(q.dimension != 2 for q in circuit.all_qubits()):
+            ctx.count(stream, key, True)
+            ctx.disagree(f'correspondence:{stream}', 'qudit circuit exported', 'qudit:exported-as-qubit-program',
+                         f'{desc}: the circuit acts on qudits of dimension {sorted({q.dimension for q in circuit.all_qubits()})} but is exported as a '
+                         f'program on a qubit register with qubit gates: {" ".join(l for l in text.splitlines() if l and not l.startswith("//"))[:200]}',
+                         dict(kind=stream, qasm=text, **rep))
+            return 'qudit'
         if exc is not None:
             tag = classify_export_error(cirq, circuit, exc)
             ctx.count(stream, key, False)
@@ -614,8 +625,8 @@ class Batch:
                 why = re.sub(r'[^A-Za-z .=]', '', str(exc).split(':')[0])[:60]
                 r[why] = r.get(why, 0) + 1
             if tag != 'refused':
-                ctx.disagree(f'correspondence:{stream}', f'{type(exc).__name__}: {exc}', tag if 'controlled' in tag else tag + ':' + '+'.join(fams),
-                             f'{desc} raises {type(exc).__name__}: {str(exc)[:160]} although every operation has a unitary and a decomposition',
+                ctx.disagree(f'correspondence:{stream}', f'{type(exc).__name__}: {exc}', tag if ('controlled' in tag or 'top-level' in tag) else tag + ':' + '+'.join(fams),
+                             f'{desc} raises {type(exc).__name__}: {str(exc)[:160]} (not an explicit refusal; every operation here has a unitary or is a measurement and can be decomposed)',
                              dict(kind=stream, **rep))
             return 'refused' if tag == 'refused' else 'raised'
         rep['qasm'] = text
@@ -754,13 +765,19 @@ def run(ctx):
     for name, e in err.items():
         if e:
             ctx.mark_broken('table:' + name, e)
-    ctx.set_obligations(coq.compile_props('C19'))
+    res = coq.compile_props('C19')
+    if not res['ok']:            # the build tree is shared with other checks: one retry before believing a failure
+        import time
+        time.sleep(5)
+        res = coq.compile_props('C19')
+    ctx.set_obligations(res)
     k = 1 if ctx.tier == 'quick' else 10
     b = Batch(ctx, cirq)
     rules_stream(ctx, cirq, b, k)
-    unitary_stream(ctx, cirq, b, 110 * k)
+    unitary_stream(ctx, cirq, b, 260 * k)
+    wrappers_stream(ctx, cirq, b, 60 * k)
     directed_stream(ctx, cirq, b)
-    measure_stream(ctx, cirq, b, 150 * k)
+    measure_stream(ctx, cirq, b, 320 * k)
     b.evaluate('all')
     ctx.cov['programs'] = len(b.programs)
 
@@ -776,6 +793,39 @@ def unitary_stream(ctx, cirq, b, n):
         order_idx = [q.x for q in cfg['order']]
         fams = sorted({o.g.fam for o in case.ops})
         b.add('unitary', circuit, cfg, fams, case.nontrivial(), ref=(case.coq_shape(order_idx), case.coq_ops(order_idx)), case=case)
+
+
+def wrappers_stream(ctx, cirq, b, n):
+    """The same generated cases seen through wrappers: tags, ParallelGate, CircuitOperation (with repetitions); the reference is
+    the unrolled list of documented gate matrices."""
+    rng = ctx.rng
+    for _ in range(n):
+        case = circuits.random_case(rng, max_wires=4, max_ops=6, qudits=False, families=QASM_FAMILIES, min_wires=2)
+        if any(d != 2 for o in case.ops for d in o.g.shape) or len(case.ops) < 2:
+            continue
+        qs = case.qids(cirq)
+        i = rng.randrange(len(case.ops))
+        j = rng.randint(i + 1, len(case.ops))
+        reps = rng.choice([1, 2])
+        mk = lambda o: o.g.cirq_gate(cirq).on(*[qs[w] for w in o.wires])
+        ops = [mk(o).with_tags('t') if rng.random() < 0.3 else mk(o) for o in case.ops[:i]]
+        ops.append(cirq.CircuitOperation(cirq.FrozenCircuit(mk(o) for o in case.ops[i:j]), repetitions=reps))
+        ops += [mk(o) for o in case.ops[j:]]
+        ref_ops = case.ops[:i] + case.ops[i:j] * reps + case.ops[j:]
+        par = None
+        if rng.random() < 0.4:
+            g = gates.draw(rng, rng.choice(['XPow', 'HPow', 'ZPow', 'PhasedX']))
+            ws = rng.sample(range(len(case.dims)), 2)
+            ops.append(cirq.ParallelGate(g.cirq_gate(cirq), 2).on(*[qs[w] for w in ws]))
+            ref_ops = ref_ops + [circuits.Op(g, [ws[0]]), circuits.Op(g, [ws[1]])]
+        circuit = cirq.Circuit(ops)
+        idle = [q for q in qs if q not in circuit.all_qubits()]
+        if idle:
+            circuit.append(cirq.Moment(cirq.I(q) for q in idle))
+        ref = circuits.Case(case.dims, ref_ops, ['E'] * len(ref_ops))
+        cfg = draw_config(rng, qs)
+        order_idx = [q.x for q in cfg['order']]
+        b.add('wrappers', circuit, cfg, sorted({o.g.fam for o in ref_ops}), ref.nontrivial(), ref=(ref.coq_shape(order_idx), ref.coq_ops(order_idx)))
 
 
 def rules_stream(ctx, cirq, b, k):
@@ -845,6 +895,16 @@ def directed_circuits(cirq):
         cirq.Circuit(cirq.H(q[0]), cirq.H(q[1]), cirq.measure(q[0], key='a'), cirq.measure(q[1], key='b'),
                      cirq.X(q[2]).with_classical_controls('a', 'b'), cirq.measure(q[2], key='c')),
         cirq.Circuit(cirq.H(q[0]), cirq.measure(q[0], key='a'), cirq.measure(q[0], q[1], key='a')),
+        # measurements that only appear through decomposition
+        cirq.Circuit(cirq.CircuitOperation(cirq.FrozenCircuit(cirq.H(q[0]), cirq.measure(q[0], key='a')))),
+        cirq.Circuit(cirq.H(q[0]), cirq.measure_single_paulistring(cirq.X(q[0]) * cirq.Z(q[1]), key='p')),
+        # wrappers
+        cirq.Circuit(cirq.H(q[0]).with_tags('t'), cirq.measure(q[0], key='m').with_tags('x'), cirq.X(q[1]).with_classical_controls('m').with_tags('y')),
+        cirq.Circuit(cirq.H(q[0]), cirq.CNOT(q[0], q[1]), cirq.measure(q[0], q[1], key='Key'), cirq.X(q[2]).with_classical_controls(sympy.Eq(sympy.Symbol('Key'), 3)),
+                     cirq.measure(q[2], key='c')),
+        # qudits
+        cirq.Circuit(cirq.XPowGate(dimension=3).on(cirq.LineQid(0, 3))),
+        cirq.Circuit(cirq.ZPowGate(dimension=3, exponent=0.5).on(cirq.LineQid(0, 3)), cirq.H(q[1])),
     ]
 
 
@@ -924,7 +984,8 @@ def replay(ctx, data):
     circuit = cirq.read_json(json_text=data['circuit_json'])
     cj = data['config']
     qs = sorted(circuit.all_qubits())
-    order = [cirq.LineQubit(x) for x in cj['order']]
+    byx = {q.x: q for q in qs}
+    order = [byx[x] for x in cj['order']]
     cfg = dict(version=cj['version'], precision=cj['precision'], api=cj['api'], order=order)
     text, exc = export(cirq, circuit, order, cfg['api'], cfg['version'], cfg['precision'])
     if exc is not None:
